@@ -49,7 +49,7 @@ def run(ctx):
             res.case([world["world"] if world else None, e.get("inp"), e.get("src"), e.get("via"), e.get("desc")])
         sess[i + 1] = world
     res.traces = sum(1 for e in evs if e["ev"] == "reset")
-    v = r2.json_lines("VERDICT")[-1]
+    v = r2.verdict
     res.extra["drift_lines"] = len(v.get("drift", []))
     res.extra["accepted_with_id"] = sum(1 for e in evs if e["ev"] == "accept" and e["ok"] and e["id"] != "none")
     res.rule = ("a case is one call of the real client.FetchUnknown (or one item built by a pub constructor) in a world where every "
